@@ -96,13 +96,73 @@ def pitzer(rng):
     return "pitzer.dat", t
 
 
+def solid_solution(rng):
+    t = "SOLUTION 1\n pH 7\n Ca %.3g\n Sr %.3g\n C(4) %.3g\nSOLID_SOLUTIONS 1\n CaSrCO3\n -comp Calcite %.3g\n -comp Strontianite %.3g\n" % (
+        rng.uniform(0.5, 5), rng.uniform(0.05, 1), rng.uniform(1, 5), rng.uniform(0.001, 0.1), rng.uniform(0.0001, 0.01))
+    t += SEL + " -solid_solutions Calcite Strontianite\nEND\nUSE solution 1\nUSE solid_solutions 1\nREACTION 1\n CO2 1\n %.3g in %d steps\nEND\n" % (
+        rng.uniform(1e-4, 1e-2), rng.randint(1, 3))
+    return "phreeqc.dat", t
+
+
+def dump_store(rng):
+    """numbered store traffic of every kind: COPY / DELETE / RUN_CELLS / DUMP -all (the dump string is one of the channels)"""
+    t = gi.solution(rng, 1) + "EQUILIBRIUM_PHASES 1\n Calcite 0 %.3g\nEXCHANGE 1\n X %.3g\n -equilibrate 1\nEND\n" % (rng.uniform(0.01, 1), rng.uniform(0.001, 0.1))
+    t += "COPY cell 1 %d\nEND\nRUN_CELLS\n -cells 1 %d\nEND\nDELETE\n -solution 1\nDUMP\n -all\n" % ((rng.randint(2, 9),) * 2) + SEL + "END\n"
+    return "phreeqc.dat", t
+
+
+def isotopes(rng):
+    t = "SOLUTION 1\n pH 7\n Ca 1\n C 2\n [13C] %.3g\n D %.3g\n [18O] %.3g\n" % (rng.uniform(-20, 5), rng.uniform(-80, 10), rng.uniform(-10, 2))
+    t += "SELECTED_OUTPUT 1\n -reset false\n -pH true\n -totals C Ca\n -high_precision true\nEND\nUSE solution 1\nREACTION 1\n CO2 1\n %.3g\nEND\n" % rng.uniform(1e-4, 1e-3)
+    return "iso.dat", t
+
+
+def sit(rng):
+    t = "SOLUTION 1\n pH 6\n Na %.3g\n Cl %.3g\n Ca %.3g\n units mmol/kgw\n" % ((rng.uniform(100, 2000),) * 2 + (rng.uniform(1, 100),))
+    t += SEL + " -ionic_strength true\nEND\n"
+    return "sit.dat", t
+
+
+def llnl(rng):
+    t = "SOLUTION 1\n temp %d\n pH 7\n Na %.3g\n Cl %.3g\n Ca %.3g\n C %.3g\n" % (rng.choice([25, 60, 100, 150]), rng.uniform(1, 100), rng.uniform(1, 100), rng.uniform(0.1, 5), rng.uniform(0.1, 5))
+    t += SEL + " -saturation_indices Calcite Halite\nEND\n"
+    return "llnl.dat", t
+
+
+def cd_music(rng):
+    t = "SURFACE_MASTER_SPECIES\n Goe_uni Goe_uniOH-0.5\nSURFACE_SPECIES\n Goe_uniOH-0.5 = Goe_uniOH-0.5\n -cd_music 0 0 0 0 0\n log_k 0\n"
+    t += " Goe_uniOH-0.5 + H+ = Goe_uniOH2+0.5\n -cd_music 1 0 0 0 0\n log_k 9.2\n Goe_uniOH-0.5 + Na+ = Goe_uniOHNa+0.5\n -cd_music 0 1 0 0 0\n log_k -1\n"
+    t += "SOLUTION 1\n pH %.2f\n Na %.3g\n Cl %.3g charge\nSURFACE 1\n Goe_uniOH-0.5 %.3g 96 %.3g\n -capacitance 1.1 5\n -cd_music\n -equilibrate 1\n" % (
+        rng.uniform(4, 9), rng.uniform(5, 200), rng.uniform(5, 200), rng.uniform(1e-4, 1e-3), rng.uniform(0.5, 3))
+    t += SEL + " -molalities Goe_uniOH2+0.5 Goe_uniOHNa+0.5\nEND\n"
+    return "phreeqc.dat", t
+
+
+def kinetics_rates_db(rng):
+    t = "SOLUTION 1\n pH %.2f\n Ca 1\n C 2\nKINETICS 1\n Calcite\n -m0 %.3g\n -parms %.3g 0.6\n -tol 1e-8\n -steps %d in %d steps\n" % (
+        rng.uniform(5, 8), rng.uniform(0.001, 0.1), rng.uniform(1, 100), rng.randint(100, 5000), rng.randint(1, 3))
+    t += SEL + " -kinetic_reactants Calcite\n -time true\nEND\n"
+    return "phreeqc.dat", t
+
+
 FAMILIES = [("speciation", speciation), ("exchange_surface", exchange_surface), ("gas", gas),
             ("kinetics_rk", lambda r: kinetics(r, False)), ("kinetics_cvode", lambda r: kinetics(r, True)),
             ("transport", lambda r: transport(r, False)), ("advection", advection), ("inverse", inverse), ("basic", basic),
-            ("pitzer", pitzer)]
+            ("pitzer", pitzer), ("solid_solution", solid_solution), ("dump_store", dump_store), ("isotopes", isotopes),
+            ("sit", sit), ("llnl", llnl), ("cd_music", cd_music), ("kinetics_db_rate", kinetics_rates_db)]
+
+# every database file shipped in /repo/database (some need another one in front and fail alone: the return code is then
+# part of the compared result)
+DATABASES = ["Amm.dat", "ColdChem.dat", "Concrete_PHR.dat", "Concrete_PZ.dat", "Kinec.v2.dat", "Kinec_v3.dat",
+             "PHREEQC_ThermoddemV1.10_15Dec2020.dat", "Tipping_Hurley.dat", "core10.dat", "frezchem.dat", "iso.dat", "llnl.dat",
+             "minimum.dat", "minteq.dat", "minteq.v4.dat", "phreeqc.dat", "phreeqc_rates.dat", "pitzer.dat", "sit.dat",
+             "wateq4f.dat"]
+
+CB = "USER_PUNCH 1\n -headings cb\n 10 PUNCH CALLBACK(STEP_NO, CELL_NO, \"x\")\n"
 
 
 def jobs(rng, n):
+    """(family, database, input[, flags]) — the first len(FAMILIES) jobs cover every family once"""
     out = []
     for i in range(n):
         name, f = FAMILIES[i % len(FAMILIES)] if i < len(FAMILIES) else rng.choice(FAMILIES)
@@ -111,5 +171,77 @@ def jobs(rng, n):
     return out
 
 
+def load_jobs(rng, n):
+    """LoadDatabase only, of shipped databases (all of them when n >= 20), in random order"""
+    dbs = list(DATABASES)
+    rng.shuffle(dbs)
+    return [("load_db", db, "", "loadonly") for db in dbs[:n]]
+
+
 def multi_d_jobs(rng, n):
     return [("transport_multi_d",) + transport(rng, True) for _ in range(n)]
+
+
+def outer_job(rng, kind):
+    """a job whose run punches several times and calls the BASIC callback at each punch (the harness can run another
+    instance's whole life inside one of these calls)"""
+    sel = "SELECTED_OUTPUT 1\n -reset false\n -pH true\n -totals Na Cl K Ca\n -high_precision true\n -step true\n" + CB
+    if kind in ("transport", "transport_multi_d"):
+        n = rng.randint(3, 7)
+        t = "SOLUTION 0\n pH 7\n Na %.3g\n Cl %.3g\n K 0.1\n N(5) 0.1\n" % ((rng.uniform(1, 10),) * 2)
+        t += "SOLUTION 1-%d\n pH 7\n K %.3g\n N(5) %.3g\n" % ((n,) + (rng.uniform(0.5, 5),) * 2)
+        t += "TRANSPORT\n -cells %d\n -shifts %d\n -lengths 0.1\n -time_step 1000\n -flow_direction forward\n -boundary_conditions flux flux\n -dispersivities 0.01\n -diffusion_coefficient 1e-9\n -punch_cells 1-%d\n" % (
+            n, rng.randint(3, 5), n)
+        if kind == "transport_multi_d":
+            t += " -multi_d true 1e-9 0.3 0.05 1.0\n"
+        return kind, "phreeqc.dat", t + sel + "END\n"
+    if kind == "advection":
+        n = rng.randint(2, 5)
+        t = "SOLUTION 0\n pH 7\n Ca %.3g\n Cl %.3g\nSOLUTION 1-%d\n pH 7\n Na 1\n Cl 1\nEXCHANGE 1-%d\n X 0.001\n -equilibrate 1\n" % (
+            rng.uniform(0.2, 2), rng.uniform(0.4, 4), n, n)
+        return kind, "phreeqc.dat", t + "ADVECTION\n -cells %d\n -shifts %d\n -punch_cells 1-%d\n" % (n, rng.randint(3, 6), n) + sel + "END\n"
+    if kind == "kinetics":
+        t = "RATES\n decay\n -start\n 10 rate = %.4g * M\n 20 SAVE rate * TIME\n -end\n" % 10 ** rng.uniform(-5, -3)
+        t += "SOLUTION 1\n pH 7\n Na 1\n Cl 1\nKINETICS 1\n decay\n -formula NaCl 1\n -m0 0.01\n -steps %s\n" % " ".join(str(rng.randint(50, 2000)) for _ in range(5))
+        return kind, "phreeqc.dat", t + sel + "END\n"
+    t = "SOLUTION 1\n pH 7\n Ca 1\n C 2\nREACTION 1\n HCl 1\n %.3g in 6 steps\n" % rng.uniform(1e-4, 1e-2)
+    return "reaction", "phreeqc.dat", t + sel + "END\n"
+
+
+OUTER_KINDS = ["reaction", "kinetics", "advection", "transport", "transport_multi_d"]
+
+
+def nested_pairs(rng, n):
+    """(outer job, inner job) pairs; the first pairs cover multi_d x multi_d (the known shared-state case) and every outer kind"""
+    pairs = [(outer_job(rng, "transport_multi_d"), ("transport_multi_d",) + transport(rng, True))]
+    k = 0
+    while len(pairs) < n:
+        outer = outer_job(rng, OUTER_KINDS[k % len(OUTER_KINDS)])
+        k += 1
+        inner = rng.choice(FAMILIES)
+        db, text = inner[1](rng)
+        if outer[0] == "transport_multi_d" and inner[0] == "transport":
+            pass
+        pairs.append((outer, (inner[0], db, text)))
+    return pairs
+
+
+def default_name_jobs(rng, n):
+    """jobs that keep the id-derived default file names and write every file sink; SELECTED_OUTPUT numbers other than 1 get
+    the default name selected_<n>.<id>.out"""
+    out = []
+    for _ in range(n):
+        nums = sorted(rng.sample([1, 2, 3, 7, 40], rng.randint(1, 3)))
+        t = "SOLUTION 1\n pH 7\n Na %.3g\n Cl %.3g\n" % ((rng.uniform(1, 10),) * 2)
+        for u in nums:
+            t += "SELECTED_OUTPUT %d\n -reset false\n -pH true\n -totals Na\n" % u
+        t += "DUMP\n -all\nKNOBS\n -logfile true\nEND\n"
+        out.append(("default_names", "phreeqc.dat", t, "defaults"))
+    return out
+
+
+def tiny_db_jobs(rng, n):
+    """databases (as text) with zero or one master species: the sort of the master list is skipped"""
+    texts = ["SOLUTION_SPECIES\nH+ = H+\n log_k 0\ne- = e-\n log_k 0\n",
+             "SOLUTION_MASTER_SPECIES\nH H+ -1 1 1\nSOLUTION_SPECIES\nH+ = H+\n log_k 0\ne- = e-\n log_k 0\n"]
+    return [("tiny_db", texts[i % 2], "", "loadonly,dbstring") for i in range(n)]
